@@ -230,6 +230,8 @@ def oracle(seed, tier):
                 v = value_for(n)
                 calls, problems, fake, err = run_mode(mode, [(n, v)], tmpdir)
                 res.evaluations += 1
+                if res.enough():
+                    break
                 wit = {'mode': mode, 'extra_args': {n: v}}
                 if err is not None:
                     res.violation('transfer-failed:%s' % mode, wit, 'transfer raised %r' % err)
@@ -282,6 +284,8 @@ def oracle(seed, tier):
             # a name outside the allow-list: rejected before any request
             calls, problems, fake, err = run_mode(mode, [('NotAnS3Argument', 'x')], tmpdir)
             res.evaluations += 1
+            if res.enough():
+                break
             if not isinstance(err, ValueError) or fake.requests():
                 res.violation('unknown-not-rejected:%s' % mode, {'mode': mode},
                               'argument outside the allow-list: error %r, %d requests made' % (err, len(fake.requests())))
@@ -363,6 +367,8 @@ def history_oracle(seed, tier):
                     new = fake.requests()[before:]
                     hist.append({'method': kind, 'extra_args': dict(extra)})
                     res.evaluations += 1
+                    if res.enough():
+                        break
                     wit = {'history': list(hist)}
                     if legal:
                         accepted_sets.append(tuple(names))
